@@ -36,6 +36,7 @@ def run(chk):
     chk.rule("C14.O3", "command line: SECTION:KEY=VALUE split on every delimiter pattern; later override of the same item wins; removals via the same table; additions in order", 9)
     chk.rule("C14.O4", "--list-items / --item-value cover every section of the (edited) file exactly once", 12)
     chk.attempt("O1", lambda: override_loop(chk, P))
+    chk.attempt("O1s", lambda: sequences(chk, P))
     chk.attempt("O2", lambda: normaliser(chk, P, "C14.O2"))
     chk.attempt("O3", lambda: cli(chk, P))
     chk.attempt("O4", lambda: listing(chk, P))
@@ -92,14 +93,14 @@ def override_loop(chk, P):
             out = parse(P, BASE, overrides=[(sec, sp, "NEW")])
             want = dict(base[1][sec])
             want[norm] = "NEW"
-            ok = out[0] == "ok" and out[1][sec] == want and set(out[1]) == set(base[1])
-            chk.ob("C14.O1", "override of %s:%r replaces the value of the item (hand edit of %r)" % (sec, sp, norm), ok, site=site,
+            ok = out[0] == "ok" and list(out[1][sec].items()) == list(want.items()) and list(out[1]) == list(base[1])
+            chk.ob("C14.O1", "override of %s:%r replaces the value of the item in place (hand edit of %r: same position in its section)" % (sec, sp, norm), ok, site=site,
                    found=out[1].get(sec) if out[0] == "ok" else out[1], expect=want, key="C14.O1|override|%s|%r" % (norm, sp))
             out = parse(P, BASE, overrides=[(sec, sp, None)])
             want = dict(base[1][sec])
             del want[norm]
-            ok = out[0] == "ok" and out[1][sec] == want
-            chk.ob("C14.O1", "removal of %s:%r deletes exactly that item" % (sec, sp), ok, site=site,
+            ok = out[0] == "ok" and list(out[1][sec].items()) == list(want.items())
+            chk.ob("C14.O1", "removal of %s:%r deletes exactly that item (the others keep their order)" % (sec, sp), ok, site=site,
                    found=out[1].get(sec) if out[0] == "ok" else out[1], expect=want, key="C14.O1|remove|%s|%r" % (norm, sp))
             out = parse(P, BASE, additional=[(sec, sp, "DUP")])
             ok = out[0] == "raise" and _is(P, out[1], "ConfigOverrideDuplicateException") and _is(P, out[1], cfgx[1], cfgx[0])
@@ -117,8 +118,8 @@ def override_loop(chk, P):
             chk.ob("C14.O1", "%s of the missing item %s:%s is a configuration error" % ("override" if val else "removal", sec, key), ok, site=site,
                    found=out[1], expect="ConfigOverrideException", key="C14.O1|missing|%s|%s" % (sec, "override" if val else "remove"))
     out = parse(P, BASE, additional=[("Pair", "X - Y", "a1")])
-    ok = out[0] == "ok" and out[1]["Pair"].get("X-Y") == "a1" and len(out[1]["Pair"]) == len(base[1]["Pair"]) + 1
-    chk.ob("C14.O1", "addition of a new item to an existing section", ok, site=site, found=out[1].get("Pair") if out[0] == "ok" else out[1],
+    ok = out[0] == "ok" and list(out[1]["Pair"].items()) == list(base[1]["Pair"].items()) + [("X-Y", "a1")]
+    chk.ob("C14.O1", "addition of a new item to an existing section (appended after the existing items)", ok, site=site, found=out[1].get("Pair") if out[0] == "ok" else out[1],
            expect="Pair:X-Y = a1", key="C14.O1|add-new")
     out = parse(P, BASE, additional=[("EAM-Embed", "A", "as.zero")])
     ok = out[0] == "ok" and out[1].get("EAM-Embed") == {"A": "as.zero"}
@@ -140,6 +141,40 @@ def override_loop(chk, P):
     ok = out[0] == "ok" and out[1]["Pair"].get("A-B") == "again"
     chk.ob("C14.O1", "an item removed by an override can be added again (additions are applied after overrides)", ok, site=site,
            found=out[1].get("Pair") if out[0] == "ok" else out[1], expect="Pair:A-B = again", key="C14.O1|remove-then-add")
+
+
+def sequences(chk, P):
+    """several edits of one item in one run behave like the same edits made to the file one after the other"""
+    cls = P.cls(CP, "ConfigParser")
+    site = cls.site_of("_init_config_parser")
+    cfgx = ("atsim.potentials.config._common", "ConfigurationException")
+    base = parse(P, BASE)
+
+    def state(out):
+        return list(out[1]["Pair"].items()) if out[0] == "ok" else out[1]
+    pair0 = list(base[1]["Pair"].items())
+    for a, b in (("A-B", "A-B"), ("A-B", "A - B")):
+        tag = "same spelling" if a == b else "two spellings"
+        out = parse(P, BASE, overrides=[("Pair", a, None), ("Pair", b, "NEW")])
+        ok = out[0] == "raise" and _is(P, out[1], "ConfigOverrideException") and _is(P, out[1], cfgx[1], cfgx[0])
+        chk.ob("C14.O1", "remove Pair:%s then override Pair:%s (%s): the item no longer exists, the override is rejected" % (a, b, tag), ok,
+               site=site, found=state(out), expect="ConfigOverrideException", key="C14.O1|seq|remove-override|%s" % tag)
+        out = parse(P, BASE, overrides=[("Pair", a, None), ("Pair", b, None)])
+        ok = out[0] == "raise" and _is(P, out[1], "ConfigOverrideException")
+        chk.ob("C14.O1", "remove Pair:%s twice (%s): the second removal is rejected" % (a, tag), ok, site=site, found=state(out),
+               expect="ConfigOverrideException", key="C14.O1|seq|remove-remove|%s" % tag)
+        out = parse(P, BASE, overrides=[("Pair", a, "N1"), ("Pair", b, "N2")])
+        ok = out[0] == "ok" and state(out) == [(k, "N2" if k == "A-B" else v) for k, v in pair0]
+        chk.ob("C14.O1", "override Pair:%s twice (%s): the later value stands, in place" % (a, tag), ok, site=site, found=state(out),
+               expect="A-B = N2", key="C14.O1|seq|override-override|%s" % tag)
+        out = parse(P, BASE, overrides=[("Pair", a, "N1"), ("Pair", b, None)])
+        ok = out[0] == "ok" and state(out) == [(k, v) for k, v in pair0 if k != "A-B"]
+        chk.ob("C14.O1", "override then remove Pair:%s (%s): the item is gone" % (a, tag), ok, site=site, found=state(out),
+               expect="no A-B", key="C14.O1|seq|override-remove|%s" % tag)
+        out = parse(P, BASE, additional=[("Pair", "X-Y" if a == b else "X - Y", "a1"), ("Pair", "X-Y", "a2")])
+        ok = out[0] == "raise" and _is(P, out[1], "ConfigOverrideDuplicateException")
+        chk.ob("C14.O1", "the same new item added twice (%s) is rejected like any addition of an existing item" % tag, ok, site=site,
+               found=state(out), expect="ConfigOverrideDuplicateException", key="C14.O1|seq|add-add|%s" % tag)
 
 
 def normaliser(chk, P, rule):
